@@ -32,16 +32,19 @@ type CharacteristicRequest struct {
 	Events           interface{} `json:"ev,omitempty"`
 }
 
-// Authenticate verfies that a sesson for the request is available.
+// Authenticate verfies that the request was received over a connection
+// which completed pair verify – only those have a secure session.
+// All other requests are refused.
 func (srv *Server) Authenticate(next http.Handler) http.Handler {
 	return http.HandlerFunc(func(w http.ResponseWriter, r *http.Request) {
 		w.Header().Set("Content-Type", hap.HTTPContentTypeHAPJson)
 		sess := srv.context.GetSessionForRequest(r)
-		if sess == nil {
+		if sess == nil || sess.Decrypter() == nil {
 			w.WriteHeader(470) // this custom status code indicates an error
 			if err := WriteJSON(w, r, &ErrResponse{Status: hap.StatusInsufficientPrivileges}); err != nil {
 				log.Debug.Println(err)
 			}
+			return
 		}
 
 		next.ServeHTTP(w, r)
